@@ -391,11 +391,12 @@ def file_specs(thorough):
         out.append(({"w": "filtered", "s": [i]}, ["reader"]))
     for i in range(5):
         out.append(({"w": "filtered-matchall", "s": [i]}, ["reader"]))
-    pair_pool = range(n) if thorough else range(5)
+    pair_pool = range(n) if thorough else [0, 1, 2, 4]  # quick: udp (same shape as tcp) only in single-flow files
     for s in itertools.product(pair_pool, repeat=2):
         out.append(({"w": "save.file", "s": list(s)}, ["reader", "readfile"] if thorough and s[0] < 5 and s[1] < 5 else ["reader"]))
     if thorough:
-        for s in itertools.product(range(5), repeat=3):
+        # three flows: every ordered choice of three distinct types, and three flows of the same type
+        for s in list(itertools.permutations(range(5), 3)) + [(i, i, i) for i in range(5)]:
             out.append(({"w": "save.file" if sum(s) % 2 else "filtered", "s": list(s)}, ["reader"]))
     for sc in SCENARIOS:
         if sc == "big-record" and not thorough:
@@ -424,7 +425,7 @@ def run(ctx):
         sum(len(v) + 1 for v in SCENARIOS.values())))
     ctx.bounds = {
         "flow_pool": ["%s%s" % (t, d or "") for t, d in POOL], "max_flows_per_file": 3 if thorough else 2,
-        "pair_pool": 8 if thorough else 5, "triple_pool": 5 if thorough else 0,
+        "pair_pool": 8 if thorough else 4, "triples": "ordered triples of distinct base types + homogeneous triples (65 files)" if thorough else "none",
         "writers": ["save.file", "FilteredFlowWriter(None)", "FilteredFlowWriter(~all)", "Save addon stream"],
         "loaders": ["FlowReader on a real file", "ReadFile.load_flows"], "truncation": "every offset 0..len",
         "hook_scenarios": {k: len(v) for k, v in SCENARIOS.items()}, "files": nfiles,
